@@ -27,7 +27,9 @@ def eps_class(fit, phi, npts, loc=1.0):
             # arc: the fit can stop at a far-away centre, i.e. the chord direction (probe p21: err/|phi| = 1.0 for
             # loc >= 1e5 and |phi| < 0.1, <= 2e-4 otherwise)
             return max(2e-2, 1.2 * a)
-        return 1e-5 * (1 + loc / 1e3)
+        # the MINPACK stop (ftol/xtol 1.49e-8) leaves an error that grows like 1/phi^2 towards straight interfaces
+        # (thorough sweep: 4.3e-5 at |phi| = 0.0113 with 17 points)
+        return max(1e-5 * (1 + loc / 1e3), 5e-7 / a ** 2)
     return 2e-2
 
 
